@@ -566,8 +566,8 @@ pub fn judge(ctx: &TreeCtx, m: &ProofM, class: &str, mon: &mut Monitor) -> Verdi
             if shape == "other" && std::env::var("VERIF_DEBUG").is_ok() {
                 eprintln!("OTHER-SHAPE class={class} n={} size={} proof={} false={:?}", ctx.n(), ctx.mmr.size(), m.to_json(), false_claims.iter().map(|(p, l)| (p, hex::encode(l))).collect::<Vec<_>>());
             }
-            crate::viol::report(mon, &format!("C09 MKProof verifies against the committed root but lists a non-committed (position, leaf): {shape}"), || format!(
-                    "MKProof::verify = Ok and root() equals the committed root of {} leaves, yet the proof lists (position {pos}, leaf 0x{}) which is not the committed leaf at that position (MKProof::contains on that leaf = {}); mutation class {class}",
+            crate::viol::report(mon, &format!("C09 verified Merkle proof vouches for a non-committed entry: {shape}"), || format!(
+                    "[MKProof] MKProof::verify = Ok and root() equals the committed root of {} leaves, yet the proof lists (position {pos}, leaf 0x{}) which is not the committed leaf at that position (MKProof::contains on that leaf = {}); mutation class {class}",
                     ctx.n(),
                     hex::encode(leaf),
                     if vouched { "Ok" } else { "Err" }
